@@ -546,6 +546,9 @@ func parseAppendRule(x *Ctx, f *ssa.Function) {
 					badT += fmt.Sprintf("%s: %s applied to the token: text after the cut is not examined\n", x.P.Pos(call.Pos()), ct.Name)
 				} else if (ct.Name == "strings.TrimRight" || ct.Name == "strings.TrimSuffix") && !(len(ct.Args) == 2 && ct.Args[1].String() == `const("?")`) {
 					badT += fmt.Sprintf("%s: %s removes %s from the token, not the optional marker\n", x.P.Pos(call.Pos()), ct.Name, ct.Args[1])
+				} else if (ct.Name == "strings.Contains" || ct.Name == "strings.Count") && len(ct.Args) == 2 && ct.Args[1].String() == `const("?")` {
+					// the marker is what the token ends with: a '?' somewhere in it (inside a quoted key) is text
+					badT += fmt.Sprintf("%s: %s looks for the optional marker anywhere in the token, not at its end\n", x.P.Pos(call.Pos()), ct.Name)
 				}
 			})
 		}
